@@ -200,6 +200,8 @@ def _build(spec, env: Env, open_models: dict):  # noqa: C901, PLR0911, PLR0912, 
     if tag == "model":
         return _build_model(spec[1], env, open_models)
     if tag == "ref":
+        if len(spec) > 2 and spec[2] == "self" and list(open_models)[-1] == spec[1]:
+            return typing.Self   # the directly enclosing model, spelled typing.Self
         return typing.ForwardRef(open_models[spec[1]])
     raise ValueError(f"unknown type tag {tag!r}")
 
@@ -533,7 +535,8 @@ def st_enum_spec(draw, counter):
 @st.composite
 def st_literal_spec(draw, counter, strict_only_lookalikes: bool):
     if True:
-        kind = draw(st.sampled_from(["ints", "strs", "mixed", "bools", "bytes", "enum", "many", "lookalike", "lookalike_many"]))
+        kind = draw(st.sampled_from(["ints", "strs", "mixed", "bools", "bytes", "enum", "enum", "many", "lookalike",
+                                     "lookalike_many"]))
         if kind == "ints":
             vals = draw(st.lists(st.sampled_from([0, 1, 2, 5, -1, 100]), min_size=1, max_size=3, unique=True))
         elif kind == "strs":
@@ -544,7 +547,8 @@ def st_literal_spec(draw, counter, strict_only_lookalikes: bool):
             vals = [{"$": "bytes", "h": h} for h in draw(st.lists(st.sampled_from(["", "00", "6162", "ff00"]),
                                                                  min_size=1, max_size=2, unique=True))]
             if draw(st.booleans()):
-                vals.append(draw(st.sampled_from([2, "zz", None])))
+                # 0 / 1 / bool members switch the strict loader to its (type, value) branch
+                vals.append(draw(st.sampled_from([2, "zz", None, 0, 1, True, False])))
         elif kind == "enum":
             es = draw(st_enum_spec(counter))
             es[1]["base"] = draw(st.sampled_from(["Enum", "StrEnum", "IntEnum"]))
@@ -557,7 +561,7 @@ def st_literal_spec(draw, counter, strict_only_lookalikes: bool):
             names = [n for n, _ in es[1]["members"]]
             pick = draw(st.lists(st.sampled_from(names), min_size=1, max_size=len(names), unique=True))
             vals = [{"$": "enum", "c": es[1]["name"], "n": n, "spec": es[1]} for n in pick]
-            extra = draw(st.sampled_from([[], [0], [1], ["zz"], [None], [0, "zz"], [True]]))
+            extra = draw(st.sampled_from([[], [0], [1], ["zz"], [None], [0, "zz"], [True], [False, 2], [1, 0]]))
             vals = vals + extra
         elif kind == "many":
             vals = [0, 1, 2, 3, 4, 5, "a", "b"][: draw(st.integers(5, 8))]
@@ -702,11 +706,14 @@ class TypeGen:
         if kind == "ref":
             name = draw(st.sampled_from(list(open_models)))
             how = draw(st.sampled_from(["optional", "list", "dict"]))
+            ref = ["ref", name]
+            if name == open_models[-1] and draw(st.integers(0, 2)) == 0:
+                ref = ["ref", name, "self"]   # typing.Self
             if how == "optional":
-                return ["optional", ["ref", name], "optional"]
+                return ["optional", ref, "optional"]
             if how == "list":
-                return ["list", ["ref", name], "typing"]
-            return ["dict", ["str"], ["ref", name], "typing"]
+                return ["list", ref, "typing"]
+            return ["dict", ["str"], ref, "typing"]
         if kind == "model":
             return draw(self._model(d, counter, open_models))
         raise AssertionError(kind)
